@@ -156,6 +156,8 @@ def check_object(run, fdmod, coremod, states):
             assert exp.shape == want, (exp.shape, want)
     # consumers that mix fd.N* with param['N*']
     try:
+        if max(shape) > 30:
+            raise StopIteration        # the consumers are exercised on the smaller grids; large ones would only cost time
         rel = coremod.AurelCore(fd, verbose=False)
         if tuple(rel.data_shape) != shape or rel.data_shape != fd.x.shape:
             ok = False
@@ -176,6 +178,8 @@ def check_object(run, fdmod, coremod, states):
                 except ValueError as ex:
                     ok = False
                     vio("ConsumerShapes", "tetrad_base", states[0], f"tetrad_base() raised {ex}")
+    except StopIteration:
+        pass
     except Exception as ex:
         ok = False
         vio("ConsumerShapes", "AurelCore", states[0], f"AurelCore(fd) raised {type(ex).__name__}: {ex}")
@@ -186,7 +190,7 @@ def run(tier, seed):
     run = Run("C16", tier, seed)
     import aurel.finitedifference as fdmod
     import aurel.core as coremod
-    nmin, nmax = (3, 26) if tier == "quick" else (3, 72)
+    nmin, nmax = (3, 26) if tier == "quick" else (3, 56)
     name, text, consts = wrapper("Grid", {
         "Mins": "{" + ", ".join(f"<<{a},{b}>>" for a, b in MINS) + "}",
         "Spacings": "{" + ", ".join(f"<<{a},{b}>>" for a, b in SPACINGS) + "}"})
